@@ -1,9 +1,26 @@
-import N0Verif.Model.XPathApi
+import N0Verif.Proofs.XPathSelect
 /-!
 # C06 — wildcard and predicate steps select exactly the matching elements, in order
+
+Only property statements live here; the lemmas are in `Proofs/XPathSelect.lean`.
+
+Reading.  "Records" are dicts; the reference results are the list comprehensions `selectF` /
+`selectWhere`; a selecting lookup returns the list of selected values (`get`, item access), the default /
+`IndexError` when nothing is selected, and `first` additionally unwraps a single match (`firstOf`).
+Field names are plain names (`PlainKey`, `FieldKey`), the literal is a plain text (`PlainLit`), written
+bare or quoted (`LitSpell`), the operator as written or normalised (`OpSpell`).
+
+The model follows the code **with the fix patches C06-a and C06-c applied** (numeric fields are
+compared as numbers, the empty literal is the empty text).
+
+What is proved (`…_partial`): everything for `P` = a plain key of the root dict (any record list, any
+length, any mix of present / absent fields).  What stays a statement (`…_stmt`): `P` an arbitrary
+concrete path, and chained selections (known finding C06-b, `C06_chained_cex`).
 -/
 namespace N0.C06
 open N0 N0.Py N0.Val N0.XPath
+
+/-! ## reference functions (the property's list comprehensions) -/
 
 /-- `[r[f] for r in rs if f in r]` -/
 def selectF (f : Str) : List Val → List Val
@@ -11,7 +28,8 @@ def selectF (f : Str) : List Val → List Val
   | .dict _ kvs :: rs => (match lookup f kvs with | some v => [v] | Option.none => []) ++ selectF f rs
   | _ :: rs => selectF f rs
 
-/-- records whose field `k` satisfies `test`, projected on `f` -/
+/-- records whose field `k` satisfies `test`, projected on `f`:
+`[r[f] for r in rs if k in r and test(r[k]) and f in r]` -/
 def selectWhere (k f : Str) (test : Val → Bool) : List Val → List Val
   | [] => []
   | .dict _ kvs :: rs =>
@@ -23,29 +41,365 @@ def selectWhere (k f : Str) (test : Val → Bool) : List Val → List Val
 /-- what a selecting lookup returns for a list of selected values: a miss when empty -/
 def selected (vals : List Val) (d : Val) : Val := if vals.isEmpty then d else .list .n0 vals
 
-/-- **full statement (fan-out).**  `name[*]/f` and `name/f` return the values of `f` of exactly
-the records that have `f`, in list order; a miss (the default) when there is none. -/
+/-- item access: `IndexError` when nothing is selected -/
+def selectedItem (vals : List Val) : PyM Val := if vals.isEmpty then .error .IndexError else .ok (.list .n0 vals)
+
+/-- "the field value `x` equals the literal `v`": a text field is compared as text, an `int` field (and a
+`bool`, which Python counts as `int`) as a number — the literal must denote that number -/
+def fieldEq (v : Str) : Val → Bool
+  | .str s => s = v
+  | .int i => pyInt v == some i
+  | .bool b => pyInt v == some (if b then 1 else 0)
+  | _ => false
+
+/-- "the field value `x` contains the literal `v`" (Python `v in x`): substring of a text, element of a
+list, key of a dict; nothing else contains anything -/
+def fieldContains (v : Str) : Val → Bool
+  | .str s => isInfix v s
+  | .list _ xs => xs.any (fun x => x == Val.str v)
+  | .dict _ kvs => (lookup v kvs).isSome
+  | _ => false
+
+/-- the field values the model compares: no float, and a non-ASCII literal only against non-numeric
+fields (`Model/XPath.lean`, `textGuard`: `float()` and non-ASCII `int()` are outside the model) -/
+def ComparableK (k v : Str) (rs : List Val) : Prop :=
+  ∀ r ∈ rs, (match r with
+    | .dict _ kvs' => (match lookup k kvs' with | some kv => textGuard kv (.str v) | Option.none => false)
+    | _ => false) = false
+
+instance (k v : Str) (rs : List Val) : Decidable (ComparableK k v rs) := by unfold ComparableK; infer_instance
+
+theorem ComparableK.guard {k v : Str} {rs : List Val} (h : ComparableK k v rs) :
+    ∀ c kvs' kv, Val.dict c kvs' ∈ rs → lookup k kvs' = some kv → textGuard kv (.str v) = false := by
+  intro c kvs' kv hm hl
+  have := h _ hm
+  simpa [hl] using this
+
+/-- text-valued `k` (the property's main case) is always comparable -/
+theorem comparable_of_strings (k v : Str) (rs : List Val)
+    (h : ∀ c kvs' kv, Val.dict c kvs' ∈ rs → lookup k kvs' = some kv → ∃ s, kv = .str s) : ComparableK k v rs := by
+  intro r hr
+  cases r with
+  | dict c kvs' =>
+    cases hl : lookup k kvs' with
+    | none => simp [hl]
+    | some kv =>
+      obtain ⟨s, rfl⟩ := h c kvs' kv hr hl
+      simp [hl, textGuard]
+  | _ => rfl
+
+/-! ## the reference functions are what the engine's loop collects -/
+
+theorem selectF_eq (f : Str) (rs : List Val) : somes (rs.map (fieldOf f)) = selectF f rs := by
+  induction rs with
+  | nil => rfl
+  | cons r rs ih =>
+    cases r with
+    | dict c kvs =>
+      cases h : lookup f kvs <;> simp [fieldOf, somes, selectF, h, ih]
+    | _ => simp [fieldOf, somes, selectF, ih]
+
+theorem selectWhere_eq (k f op : Str) (v : CondVal) (rs : List Val) :
+    somes (rs.map (condOutcome k f op v)) = selectWhere k f (condTest op v) rs := by
+  induction rs with
+  | nil => rfl
+  | cons r rs ih =>
+    cases r with
+    | dict c kvs =>
+      cases hk : lookup k kvs with
+      | none => simp [condOutcome, somes, selectWhere, hk, ih]
+      | some kv =>
+        cases ht : condTest op v kv with
+        | false => cases hf : lookup f kvs <;> simp [condOutcome, somes, selectWhere, hk, ht, hf, ih]
+        | true => cases hf : lookup f kvs <;> simp [condOutcome, somes, selectWhere, hk, ht, hf, ih]
+    | _ => simp [condOutcome, somes, selectWhere, ih]
+
+theorem selectWhere_congr (k f : Str) (t1 t2 : Val → Bool) (rs : List Val)
+    (h : ∀ c kvs' kv, Val.dict c kvs' ∈ rs → lookup k kvs' = some kv → t1 kv = t2 kv) :
+    selectWhere k f t1 rs = selectWhere k f t2 rs := by
+  induction rs with
+  | nil => rfl
+  | cons r rs ih =>
+    have ih' := ih (fun c kvs' kv hm hl => h c kvs' kv (List.mem_cons_of_mem _ hm) hl)
+    cases r with
+    | dict c kvs =>
+      cases hk : lookup k kvs with
+      | none => simp [selectWhere, hk, ih']
+      | some kv =>
+        have := h c kvs kv (by simp) hk
+        cases hf : lookup f kvs <;> simp [selectWhere, hk, hf, this, ih']
+    | _ => simp [selectWhere, ih']
+
+theorem pyEqCond_str (x : Val) (v : Str) : pyEqCond x (.str v) = (x == Val.str v) := by
+  cases x with
+  | str s =>
+    show decide (s = v) = Val.beq (.str s) (.str v)
+    by_cases h : s = v <;> simp [Val.beq, h]
+  | _ => rfl
+
+theorem condTest_eq (v : Str) (kv : Val) (hg : textGuard kv (.str v) = false) :
+    condTest ['=', '='] (.str v) kv = fieldEq v kv := by
+  cases kv <;> simp_all [condTest, textEqCond, pyEqCond, fieldEq, textGuard]
+
+theorem condTest_ne (v : Str) (kv : Val) (hg : textGuard kv (.str v) = false) :
+    condTest ['!', '='] (.str v) kv = !fieldEq v kv := by
+  cases kv <;> simp_all [condTest, textEqCond, pyEqCond, fieldEq, textGuard]
+
+theorem condTest_contains (v : Str) (kv : Val) :
+    condTest ['~', '~'] (.str v) kv = fieldContains v kv := by
+  cases kv <;> simp [condTest, pyInCond, fieldContains, kvHas, pyEqCond_str]
+
+/-! ## full statements (`P` any concrete path; chained selections) -/
+
+/-- **full statement (fan-out).**  For the record list at any position `p` (canonical path `P`),
+`P[*]/f` and `P/f` return `selectF f rs`; a miss when it is empty; `first` unwraps a single match. -/
 def C06_star_stmt : Prop :=
-  ∀ (cls : Cls) (kvs : List (Str × Val)) (name f : Str) (lc : Cls) (rs : List Val) (d : Val),
+  ∀ (cls : Cls) (kvs : List (Str × Val)) (p : Pos) (f : Str) (lc : Cls) (rs : List Val) (d : Val),
+    PlainPos p → p ≠ [] → PlainKey f → getAt (.dict cls kvs) p = some (.list lc rs) → (∀ r ∈ rs, isDict r = true) →
+    ∃ n, ∀ fuel ≥ n, ∀ xp ∈ [slash ++ renderPos p ++ bracket ['*'] ++ slash ++ f, slash ++ renderPos p ++ slash ++ f],
+      XPath.get fuel (.dict cls kvs) xp d = (.dict cls kvs, .ok (selected (selectF f rs) d)) ∧
+      getItem fuel (.dict cls kvs) xp = (.dict cls kvs, selectedItem (selectF f rs)) ∧
+      first fuel (.dict cls kvs) xp d = (.dict cls kvs, .ok (firstOf (selectF f rs) d))
+
+/-- **full statement (predicates).**  For the record list at any position `p`, `P[k op v]/f` and
+`P/k[text() op v]/../f` return `f` of exactly the records whose `k` passes the comparison. -/
+def C06_pred_stmt : Prop :=
+  ∀ (cls : Cls) (kvs : List (Str × Val)) (p : Pos) (k f opx op vq v : Str) (lc : Cls) (rs : List Val) (d : Val),
+    PlainPos p → p ≠ [] → FieldKey k → PlainKey f → OpSpell opx op → LitSpell vq v → PlainLit v →
+    getAt (.dict cls kvs) p = some (.list lc rs) → (∀ r ∈ rs, isDict r = true) → ComparableK k v rs →
+    ∃ n, ∀ fuel ≥ n, ∀ xp ∈ [slash ++ renderPos p ++ bracket (k ++ opx ++ vq) ++ slash ++ f,
+                             slash ++ renderPos p ++ slash ++ k ++ bracket (sTextFn ++ opx ++ vq) ++ slash ++ ['.', '.'] ++ slash ++ f],
+      XPath.get fuel (.dict cls kvs) xp d
+        = (.dict cls kvs, .ok (selected (selectWhere k f (condTest op (.str v)) rs) d))
+
+/-- **full statement (chained selections, two levels).**  `name[k1=v1]/items[k2=v2]/f` returns, for every
+outer record that matches and has a non-empty inner selection, the list of its inner selections.
+Refuted on the pinned tree by `C06_chained_cex` (finding C06-b). -/
+def C06_chained_stmt : Prop :=
+  ∀ (cls : Cls) (kvs : List (Str × Val)) (name k1 v1 items k2 v2 f : Str) (lc : Cls) (rs : List Val) (d : Val),
+    PlainKey name → FieldKey k1 → PlainLit v1 → PlainKey items → FieldKey k2 → PlainLit v2 → PlainKey f →
     lookup name kvs = some (.list lc rs) → (∀ r ∈ rs, isDict r = true) →
     ∃ n, ∀ fuel ≥ n,
-      (XPath.get fuel (.dict cls kvs) (name ++ bracket ['*'] ++ slash ++ f) d).2 = .ok (selected (selectF f rs) d) ∧
-      (XPath.get fuel (.dict cls kvs) (name ++ slash ++ f) d).2 = .ok (selected (selectF f rs) d)
+      (XPath.get fuel (.dict cls kvs)
+          (name ++ bracket (k1 ++ ['='] ++ v1) ++ slash ++ items ++ bracket (k2 ++ ['='] ++ v2) ++ slash ++ f) d).2
+        = .ok (selected
+            ((selectWhere k1 items (fieldEq v1) rs).filterMap (fun its =>
+              match its with
+              | .list _ xs =>
+                let sel := selectWhere k2 f (fieldEq v2) xs
+                if sel.isEmpty then Option.none else some (.list .n0 sel)
+              | _ => Option.none)) d)
 
-/-- **full statement (equality predicate).** -/
-def C06_eq_stmt : Prop :=
-  ∀ (cls : Cls) (kvs : List (Str × Val)) (name k f v : Str) (lc : Cls) (rs : List Val) (d : Val),
-    lookup name kvs = some (.list lc rs) → (∀ r ∈ rs, isDict r = true) → v ≠ [] →
-    ∃ n, ∀ fuel ≥ n,
-      (XPath.get fuel (.dict cls kvs) (name ++ bracket (k ++ ['='] ++ v) ++ slash ++ f) d).2
-        = .ok (selected (selectWhere k f (fun x => x == .str v) rs) d)
+/-! ## proved: the record list is stored under a plain key of the root -/
+
+/-- **C06 (fan-out).**  `name[*]/f` and the shorthand `name/f` return the values of `f` of exactly the
+records that have `f`, in list order — for `get` (the default when there is none) and item access
+(`IndexError` when there is none); the tree is unchanged.  Any record list, any length. -/
+theorem C06_star_partial (cls : Cls) (kvs : List (Str × Val)) (name f : Str) (lc : Cls) (rs : List Val) (d : Val)
+    (hname : PlainKey name) (hf : PlainKey f) (hl : lookup name kvs = some (.list lc rs))
+    (hrs : ∀ r ∈ rs, isDict r = true) (fuel : Nat) (hfuel : fuel ≥ rs.length + 6) :
+    ∀ xp ∈ [name ++ bracket ['*'] ++ slash ++ f, name ++ slash ++ f],
+      XPath.get fuel (.dict cls kvs) xp d = (.dict cls kvs, .ok (selected (selectF f rs) d)) ∧
+      getItem fuel (.dict cls kvs) xp = (.dict cls kvs, selectedItem (selectF f rs)) := by
+  intro xp hxp
+  have hx : xp = name ++ bracket ['*'] ++ slash ++ f ∨ xp = name ++ slash ++ f := by simpa using hxp
+  have := star_api cls kvs name f lc rs d hname hf hl hrs fuel hfuel xp hx
+  simp only [selectF_eq] at this
+  exact ⟨this.1, this.2.1⟩
+
+/-- **C06 (`first`).**  `first` returns the single match itself when exactly one record is selected (and
+then unwraps once more if that value is itself a one-element list — `first`'s own last step), the list
+when several are, the default when none is. -/
+theorem C06_first_unwrap_partial (cls : Cls) (kvs : List (Str × Val)) (name f : Str) (lc : Cls) (rs : List Val) (d : Val)
+    (hname : PlainKey name) (hf : PlainKey f) (hl : lookup name kvs = some (.list lc rs))
+    (hrs : ∀ r ∈ rs, isDict r = true) (fuel : Nat) (hfuel : fuel ≥ rs.length + 6) :
+    ∀ xp ∈ [name ++ bracket ['*'] ++ slash ++ f, name ++ slash ++ f],
+      first fuel (.dict cls kvs) xp d = (.dict cls kvs, .ok (firstOf (selectF f rs) d)) := by
+  intro xp hxp
+  have hx : xp = name ++ bracket ['*'] ++ slash ++ f ∨ xp = name ++ slash ++ f := by simpa using hxp
+  have := star_api cls kvs name f lc rs d hname hf hl hrs fuel hfuel xp hx
+  simp only [selectF_eq] at this
+  exact this.2.2
+
+/-- what `firstOf` is: the match itself for a single scalar / dict match, the list for several -/
+theorem C06_firstOf_cases (vals : List Val) (d v : Val) :
+    (vals = [v] → (∀ c x, v ≠ .list c [x]) → firstOf vals d = v) ∧
+    (vals.length ≥ 2 → firstOf vals d = .list .n0 vals) ∧
+    (vals = [] → (∀ c x, d ≠ .list c [x]) → firstOf vals d = d) := by
+  refine ⟨?_, ?_, ?_⟩
+  · rintro rfl hv
+    simp only [firstOf]
+    cases v with
+    | list c xs =>
+      cases xs with
+      | nil => rfl
+      | cons x xs =>
+        cases xs with
+        | nil => exact absurd rfl (hv c x)
+        | cons y ys => rfl
+    | _ => rfl
+  · intro hlen
+    match vals, hlen with
+    | a :: b :: rest, _ => rfl
+  · rintro rfl hd
+    simp only [firstOf]
+    cases d with
+    | list c xs =>
+      cases xs with
+      | nil => rfl
+      | cons x xs =>
+        cases xs with
+        | nil => exact absurd rfl (hd c x)
+        | cons y ys => rfl
+    | _ => rfl
+
+/-- **C06 (fan-out, any path, token level).**  If the tokens `toksP` spell the position of a list of dict
+records anywhere in the tree (plain keys, index steps in any spelling — `Spells`), then `_find` on
+`toksP ++ ["[*]", f]` and on `toksP ++ [f]` finds exactly `selectF f rs` (a miss when empty), for both
+values of `return_lists`; the tree is unchanged. -/
+theorem C06_star_spelled (t : Val) (rl : Bool) (toksP : List Str) (p : Pos) (lc : Cls) (rs : List Val) (f : Str)
+    (hs : Spells toksP t p (.list lc rs)) (hne : toksP ≠ []) (hrs : ∀ r ∈ rs, isDict r = true) (hf : PlainKey f)
+    (fuel : Nat) (hfuel : fuel ≥ 2 * toksP.length + rs.length + 5) :
+    ∀ tail ∈ [[bracket ['*'], f], [f]],
+      ∃ r, findD fuel t [] false true (toksP ++ tail) (.at []) rl slash = .ok (t, r) ∧
+        r.isFound = !(selectF f rs).isEmpty ∧ (r.isFound = true → r.value = collect rl (selectF f rs)) := by
+  intro tail htail
+  have ht : tail = [bracket ['*'], f] ∨ tail = [f] := by simpa using htail
+  have := star_spelled t rl f hs hne hrs hf fuel hfuel tail ht
+  simpa only [selectF_eq] using this
+
+/-- **C06 (shorthand `P/f`, any path).**  For the record list at any position `p` of the tree (canonical
+path `P`, as `xpath()` prints it), `P/f` returns `selectF f rs` through `get`, item access and `first`. -/
+theorem C06_implicit_star_path_partial (cls : Cls) (kvs : List (Str × Val)) (p : Pos) (f : Str) (lc : Cls)
+    (rs : List Val) (d : Val) (hp : PlainPos p) (hne : p ≠ []) (hf : PlainKey f)
+    (hget : getAt (.dict cls kvs) p = some (.list lc rs)) (hrs : ∀ r ∈ rs, isDict r = true)
+    (fuel : Nat) (hfuel : fuel ≥ 2 * p.length + rs.length + 5) :
+    let xp := slash ++ renderPos p ++ slash ++ f
+    XPath.get fuel (.dict cls kvs) xp d = (.dict cls kvs, .ok (selected (selectF f rs) d)) ∧
+    getItem fuel (.dict cls kvs) xp = (.dict cls kvs, selectedItem (selectF f rs)) ∧
+    first fuel (.dict cls kvs) xp d = (.dict cls kvs, .ok (firstOf (selectF f rs) d)) := by
+  intro xp
+  have := star_implicit_path cls kvs p f lc rs d hp hne hf hget hrs fuel hfuel
+  simp only [selectF_eq] at this
+  exact this
+
+/-- the general form of the three predicate theorems: any operator spelling, with `first` -/
+theorem C06_pred_partial (cls : Cls) (kvs : List (Str × Val)) (name k f opx op vq v : Str) (lc : Cls) (rs : List Val)
+    (d : Val) (hname : PlainKey name) (hk : FieldKey k) (hf : PlainKey f) (hop : OpSpell opx op) (hlit : LitSpell vq v)
+    (hv : PlainLit v) (hl : lookup name kvs = some (.list lc rs)) (hrs : ∀ r ∈ rs, isDict r = true)
+    (hg : ComparableK k v rs) (fuel : Nat) (hfuel : fuel ≥ rs.length + 10) :
+    ∀ xp ∈ [name ++ bracket (k ++ opx ++ vq) ++ slash ++ f,
+            name ++ slash ++ k ++ bracket (sTextFn ++ opx ++ vq) ++ slash ++ ['.', '.'] ++ slash ++ f],
+      XPath.get fuel (.dict cls kvs) xp d = (.dict cls kvs, .ok (selected (selectWhere k f (condTest op (.str v)) rs) d)) ∧
+      getItem fuel (.dict cls kvs) xp = (.dict cls kvs, selectedItem (selectWhere k f (condTest op (.str v)) rs)) ∧
+      first fuel (.dict cls kvs) xp d = (.dict cls kvs, .ok (firstOf (selectWhere k f (condTest op (.str v)) rs) d)) := by
+  intro xp hxp
+  simp only [List.mem_cons, List.not_mem_nil, or_false] at hxp
+  rcases hxp with rfl | rfl
+  · have := cond_api cls kvs name k f opx op vq v lc rs d hname hk hf hop hlit hv hl hrs hg.guard fuel hfuel
+    simp only [selectWhere_eq] at this
+    exact this
+  · have := textform_api cls kvs name k f opx op vq v lc rs d hname hk hf hop hlit hv hl hrs hg.guard fuel hfuel
+    simp only [selectWhere_eq] at this
+    exact this
+
+/-- **C06 (`=`).**  `name[k=v]/f` (also written `==`; `v` bare or quoted) returns `f` of exactly the
+records whose `k` equals `v` (text fields as text, int fields as numbers), in list order. -/
+theorem C06_eq_partial (cls : Cls) (kvs : List (Str × Val)) (name k f opx vq v : Str) (lc : Cls) (rs : List Val)
+    (d : Val) (hname : PlainKey name) (hk : FieldKey k) (hf : PlainKey f) (hop : OpSpell opx ['=', '=']) (hlit : LitSpell vq v)
+    (hv : PlainLit v) (hl : lookup name kvs = some (.list lc rs)) (hrs : ∀ r ∈ rs, isDict r = true)
+    (hg : ComparableK k v rs) (fuel : Nat) (hfuel : fuel ≥ rs.length + 10) :
+    let xp := name ++ bracket (k ++ opx ++ vq) ++ slash ++ f
+    XPath.get fuel (.dict cls kvs) xp d = (.dict cls kvs, .ok (selected (selectWhere k f (fieldEq v) rs) d)) ∧
+    getItem fuel (.dict cls kvs) xp = (.dict cls kvs, selectedItem (selectWhere k f (fieldEq v) rs)) ∧
+    first fuel (.dict cls kvs) xp d = (.dict cls kvs, .ok (firstOf (selectWhere k f (fieldEq v) rs) d)) := by
+  intro xp
+  have := C06_pred_partial cls kvs name k f opx _ vq v lc rs d hname hk hf hop hlit hv hl hrs hg fuel hfuel xp (by simp [xp])
+  rwa [selectWhere_congr k f _ (fieldEq v) rs (fun c kvs' kv hm hlk => condTest_eq v kv (hg.guard c kvs' kv hm hlk))] at this
+
+/-- **C06 (`!=`).**  `name[k!=v]/f` returns `f` of exactly the records that have `k` and whose `k` differs
+from `v`. -/
+theorem C06_ne_partial (cls : Cls) (kvs : List (Str × Val)) (name k f vq v : Str) (lc : Cls) (rs : List Val)
+    (d : Val) (hname : PlainKey name) (hk : FieldKey k) (hf : PlainKey f) (hlit : LitSpell vq v)
+    (hv : PlainLit v) (hl : lookup name kvs = some (.list lc rs)) (hrs : ∀ r ∈ rs, isDict r = true)
+    (hg : ComparableK k v rs) (fuel : Nat) (hfuel : fuel ≥ rs.length + 10) :
+    let xp := name ++ bracket (k ++ ['!', '='] ++ vq) ++ slash ++ f
+    XPath.get fuel (.dict cls kvs) xp d = (.dict cls kvs, .ok (selected (selectWhere k f (fun x => !fieldEq v x) rs) d)) ∧
+    getItem fuel (.dict cls kvs) xp = (.dict cls kvs, selectedItem (selectWhere k f (fun x => !fieldEq v x) rs)) ∧
+    first fuel (.dict cls kvs) xp d = (.dict cls kvs, .ok (firstOf (selectWhere k f (fun x => !fieldEq v x) rs) d)) := by
+  intro xp
+  have := C06_pred_partial cls kvs name k f _ _ vq v lc rs d hname hk hf .ne hlit hv hl hrs hg fuel hfuel xp (by simp [xp])
+  rwa [selectWhere_congr k f _ (fun x => !fieldEq v x) rs (fun c kvs' kv hm hlk => condTest_ne v kv (hg.guard c kvs' kv hm hlk))] at this
+
+/-- **C06 (`~`).**  `name[k~v]/f` (also `~~`) returns `f` of exactly the records whose `k` contains `v`
+(substring of a text; a number contains nothing). -/
+theorem C06_contains_partial (cls : Cls) (kvs : List (Str × Val)) (name k f opx vq v : Str) (lc : Cls) (rs : List Val)
+    (d : Val) (hname : PlainKey name) (hk : FieldKey k) (hf : PlainKey f) (hop : OpSpell opx ['~', '~']) (hlit : LitSpell vq v)
+    (hv : PlainLit v) (hl : lookup name kvs = some (.list lc rs)) (hrs : ∀ r ∈ rs, isDict r = true)
+    (hg : ComparableK k v rs) (fuel : Nat) (hfuel : fuel ≥ rs.length + 10) :
+    let xp := name ++ bracket (k ++ opx ++ vq) ++ slash ++ f
+    XPath.get fuel (.dict cls kvs) xp d = (.dict cls kvs, .ok (selected (selectWhere k f (fieldContains v) rs) d)) ∧
+    getItem fuel (.dict cls kvs) xp = (.dict cls kvs, selectedItem (selectWhere k f (fieldContains v) rs)) ∧
+    first fuel (.dict cls kvs) xp d = (.dict cls kvs, .ok (firstOf (selectWhere k f (fieldContains v) rs) d)) := by
+  intro xp
+  have := C06_pred_partial cls kvs name k f opx _ vq v lc rs d hname hk hf hop hlit hv hl hrs hg fuel hfuel xp (by simp [xp])
+  rwa [selectWhere_congr k f _ (fieldContains v) rs (fun c kvs' kv _ _ => condTest_contains v kv)] at this
+
+/-- **C06 (text form).**  `name/k[text() op v]/../f` returns exactly what `name[k op v]/f` returns
+(`get`, item access and `first`), for every operator and literal spelling. -/
+theorem C06_text_form_equiv_partial (cls : Cls) (kvs : List (Str × Val)) (name k f opx op vq v : Str) (lc : Cls)
+    (rs : List Val) (d : Val) (hname : PlainKey name) (hk : FieldKey k) (hf : PlainKey f) (hop : OpSpell opx op)
+    (hlit : LitSpell vq v) (hv : PlainLit v) (hl : lookup name kvs = some (.list lc rs))
+    (hrs : ∀ r ∈ rs, isDict r = true) (hg : ComparableK k v rs) (fuel : Nat) (hfuel : fuel ≥ rs.length + 10) :
+    let xpT := name ++ slash ++ k ++ bracket (sTextFn ++ opx ++ vq) ++ slash ++ ['.', '.'] ++ slash ++ f
+    let xpP := name ++ bracket (k ++ opx ++ vq) ++ slash ++ f
+    XPath.get fuel (.dict cls kvs) xpT d = XPath.get fuel (.dict cls kvs) xpP d ∧
+    getItem fuel (.dict cls kvs) xpT = getItem fuel (.dict cls kvs) xpP ∧
+    first fuel (.dict cls kvs) xpT d = first fuel (.dict cls kvs) xpP d := by
+  intro xpT xpP
+  have h := C06_pred_partial cls kvs name k f opx op vq v lc rs d hname hk hf hop hlit hv hl hrs hg fuel hfuel
+  have hT := h xpT (by simp [xpT])
+  have hP := h xpP (by simp [xpP])
+  exact ⟨hT.1.trans hP.1.symm, hT.2.1.trans hP.2.1.symm, hT.2.2.trans hP.2.2.symm⟩
+
+/-! ## non-vacuity -/
 
 def recs : Val :=
   .dict .n0 [(['r'], .list .plain [.dict .plain [(['k'], .str ['1']), (['f'], .str ['x'])],
                                      .dict .plain [(['k'], .str ['2'])],
                                      .dict .plain [(['k'], .str ['1']), (['f'], .str ['y'])]])]
 
-/-! the selecting forms on a concrete record list (non-vacuity; all five forms) -/
+def recsList : List Val :=
+  [.dict .plain [(['k'], .str ['1']), (['f'], .str ['x'])], .dict .plain [(['k'], .str ['2'])],
+   .dict .plain [(['k'], .str ['1']), (['f'], .str ['y'])]]
+
+theorem plainKey_r : PlainKey ['r'] := ⟨by decide, by decide, by decide⟩
+theorem plainKey_f : PlainKey ['f'] := ⟨by decide, by decide, by decide⟩
+theorem plainKey_k : PlainKey ['k'] := ⟨by decide, by decide, by decide⟩
+theorem fieldKey_k : FieldKey ['k'] := ⟨plainKey_k, ⟨by decide, by decide, by decide⟩, by decide⟩
+theorem plainLit_1 : PlainLit ['1'] := ⟨by decide, by decide, by decide⟩
+theorem plainLit_empty : PlainLit [] := ⟨by decide, by decide, by decide⟩
+
+/-- the hypotheses of `C06_star_partial` / `C06_eq_partial` are inhabited, and the reference results are
+the expected ones: two records with `f`, one without; two records with `k = '1'` -/
+example : selectF ['f'] recsList = [.str ['x'], .str ['y']] := by decide
+example : selectWhere ['k'] ['f'] (fieldEq ['1']) recsList = [.str ['x'], .str ['y']] := by decide
+example : selectWhere ['k'] ['k'] (fun x => !fieldEq ['1'] x) recsList = [.str ['2']] := by decide
+example : (XPath.get 13 recs ['r', '[', '*', ']', '/', 'f'] .none) = (recs, .ok (.list .n0 [.str ['x'], .str ['y']])) :=
+  ((C06_star_partial .n0 _ ['r'] ['f'] .plain recsList .none plainKey_r plainKey_f rfl (by decide) 13 (by decide)) _
+    (by simp [bracket, slash])).1
+example : (XPath.get 13 recs ['r', '[', 'k', '=', '\'', '1', '\'', ']', '/', 'f'] .none)
+    = (recs, .ok (.list .n0 [.str ['x'], .str ['y']])) :=
+  (C06_eq_partial .n0 _ ['r'] ['k'] ['f'] ['='] _ ['1'] .plain recsList .none plainKey_r fieldKey_k plainKey_f .eq1
+    (.sq ['1']) plainLit_1 rfl (by decide) (by decide) 13 (by decide)).1
+
+/-- a record list two levels down (`/a[1]`), reached through `C06_implicit_star_path_partial` -/
+def deep : Val := .dict .n0 [(['a'], .list .plain [.str ['p'], .list .plain recsList])]
+example : (XPath.get 20 deep ['/', '/', 'a', '[', '1', ']', '/', 'f'] .none) = (deep, .ok (.list .n0 [.str ['x'], .str ['y']])) :=
+  (C06_implicit_star_path_partial .n0 _ [.key ['a'], .idx 1] ['f'] .plain recsList .none
+    ⟨⟨by decide, by decide, by decide⟩, trivial⟩ (by simp) plainKey_f rfl (by decide) 20 (by decide)).1
+
+/-! the selecting forms on a concrete record list, evaluated by the model (all five forms) -/
 example : (XPath.get 60 recs ['r', '[', '*', ']', '/', 'f'] .none).2 = .ok (.list .n0 [.str ['x'], .str ['y']]) := by decide
 example : (XPath.get 60 recs ['r', '/', 'f'] .none).2 = .ok (.list .n0 [.str ['x'], .str ['y']]) := by decide
 example : (XPath.get 60 recs ['r', '[', 'k', '=', '1', ']', '/', 'f'] .none).2 = .ok (.list .n0 [.str ['x'], .str ['y']]) := by decide
@@ -55,18 +409,31 @@ example : (XPath.get 60 recs ['r', '/', 'k', '[', 't', 'e', 'x', 't', '(', ')', 
 example : (XPath.get 60 recs ['r', '[', 'k', '=', '3', ']', '/', 'f'] (.str ['D'])).2 = .ok (.str ['D']) := by decide
 example : (XPath.first 60 recs ['r', '[', 'k', '=', '2', ']', '/', 'k'] .none).2 = .ok (.str ['2']) := by decide
 
-/-- C06-a: one numeric `k` in the list turns the whole predicate lookup into a miss -/
+/-- (was finding C06-a, repaired by fix C06-a) a numeric `k` is compared as a number, a text `k` as
+text: `r[k=1]/f` selects both records; a literal that is not a number is just not equal -/
 def recsNum : Val :=
   .dict .n0 [(['r'], .list .plain [.dict .plain [(['k'], .int 1), (['f'], .str ['x'])],
-                                     .dict .plain [(['k'], .str ['1']), (['f'], .str ['y'])]])]
-theorem C06_numeric_cex :
-    (XPath.get 60 recsNum ['r', '[', 'k', '=', '1', ']', '/', 'f'] (.str ['D'])).2 = .ok (.str ['D']) := by decide
+                                     .dict .plain [(['k'], .str ['1']), (['f'], .str ['y'])],
+                                     .dict .plain [(['k'], .int 2), (['f'], .str ['z'])]])]
+theorem C06_numeric_example :
+    (XPath.get 60 recsNum ['r', '[', 'k', '=', '1', ']', '/', 'f'] (.str ['D'])).2 = .ok (.list .n0 [.str ['x'], .str ['y']])
+    ∧ (XPath.get 60 recsNum ['r', '[', 'k', '!', '=', '1', ']', '/', 'f'] (.str ['D'])).2 = .ok (.list .n0 [.str ['z']])
+    ∧ (XPath.get 60 recsNum ['r', '[', 'k', '=', 'a', ']', '/', 'f'] (.str ['D'])).2 = .ok (.str ['D'])
+    ∧ (XPath.get 60 recsNum ['r', '[', 'k', '~', '1', ']', '/', 'f'] (.str ['D'])).2 = .ok (.list .n0 [.str ['y']]) := by
+  decide +kernel
 
-/-- C06-c: the empty literal is compared as the text `False` -/
+/-- (was finding C06-c, repaired by fix C06-c) the empty literal selects the records whose `k` is
+the empty text, in both forms; a record without `k` is not selected -/
 def recsEmpty : Val :=
-  .dict .n0 [(['r'], .list .plain [.dict .plain [(['k'], .str []), (['f'], .str ['x'])]])]
-theorem C06_empty_literal_cex :
-    (XPath.get 60 recsEmpty ['r', '[', 'k', '=', '\'', '\'', ']', '/', 'f'] (.str ['D'])).2 = .ok (.str ['D']) := by decide
+  .dict .n0 [(['r'], .list .plain [.dict .plain [(['k'], .str []), (['f'], .str ['x'])],
+                                     .dict .plain [(['f'], .str ['y'])],
+                                     .dict .plain [(['k'], .str ['a']), (['f'], .str ['z'])]])]
+theorem C06_empty_literal_example :
+    (XPath.get 60 recsEmpty ['r', '[', 'k', '=', '\'', '\'', ']', '/', 'f'] (.str ['D'])).2 = .ok (.list .n0 [.str ['x']])
+    ∧ (XPath.get 60 recsEmpty ['r', '/', 'k', '[', 't', 'e', 'x', 't', '(', ')', '=', '\'', '\'', ']', '/', '.', '.', '/', 'f'] (.str ['D'])).2
+        = .ok (.list .n0 [.str ['x']])
+    ∧ (XPath.get 60 recsEmpty ['r', '[', 'k', '!', '=', '\'', '\'', ']', '/', 'f'] (.str ['D'])).2 = .ok (.list .n0 [.str ['z']]) := by
+  decide +kernel
 
 /-- C06-b: chained predicates return the records of the wrong parent -/
 def orders : Val :=
